@@ -25,6 +25,25 @@ class SuiteSparseSolver:
         self.factorize = True
         self.new_A = False  # does not need to handle new A in suitesparse solvers
         self.use_linsolve = False
+        self._pattern = None  # sparsity pattern for which `self.F` was computed
+
+    def _pattern_changed(self, A):
+        """
+        Check if the sparsity pattern of ``A`` differs from that of the previous call, and remember the new one.
+
+        KLU does not validate a symbolic factorization against the matrix; reusing one computed
+        for a different pattern returns wrong results or crashes.
+        """
+        ccs = A.CCS
+        pattern = (A.size, np.array(ccs[0]).ravel(), np.array(ccs[1]).ravel())
+        old = self._pattern
+        self._pattern = pattern
+
+        if old is None:
+            return False
+
+        return (old[0] != pattern[0]) or (len(old[2]) != len(pattern[2])) or \
+            (not np.array_equal(old[1], pattern[1])) or (not np.array_equal(old[2], pattern[2]))
 
     def clear(self):
         """
@@ -36,6 +55,7 @@ class SuiteSparseSolver:
         self.N = None   # numeric factorization
         self.factorize = True
         self.use_linsolve = False
+        self._pattern = None
 
     def _symbolic(self, A):
         """
@@ -117,7 +137,7 @@ class SuiteSparseSolver:
         self.A = A
         self.b = b
 
-        if self.factorize is True:
+        if self._pattern_changed(self.A) or (self.factorize is True):
             self.F = self._symbolic(self.A)
             self.factorize = False
 
